@@ -56,6 +56,10 @@ def label_family(rng, fam, n, nb):
         return [["t", ["U%d" % i]] if i % 2 == 0 else ["t", ["n", i]] for i in range(n)]
     if fam == "frozenset":
         return [["f", [i, -1 - i]] for i in range(n)]
+    if fam == "nested":          # labels that contain other labels of the same graph
+        base = [["s", "p0"], ["s", "q1"], ["t", ["p0", "q1"]], ["f", ["p0", "q1"]], ["t", ["q1", "p0"]], ["f", ["p0"]],
+                ["t", ["p0"]], ["t", ["q1"]], ["f", ["q1"]]]
+        return [base[i] if i < len(base) else ["t", ["p0", "q1", i]] for i in range(n)]
     if fam == "udense":          # exactly U0..U{n-1}
         ks = list(range(n))
         rng.shuffle(ks)
@@ -83,7 +87,7 @@ def label_family(rng, fam, n, nb):
     raise ValueError(fam)
 
 
-FAMILIES = ("plain", "int", "bigint", "tuple", "frozenset", "udense", "ucoll", "ugap", "unear", "mixed")
+FAMILIES = ("plain", "int", "bigint", "tuple", "frozenset", "udense", "ucoll", "ugap", "unear", "mixed", "nested")
 COLLIDING = ("udense", "ucoll", "ugap", "mixed")
 
 
@@ -593,7 +597,7 @@ def replay(ctx, payload):
 
 # ----------------------------------------------------------------------------- C15 adapter (added by the integrator)
 _C15_FAM = {"int": "int", "bigint": "bigint", "str": "plain", "tuple": "tuple", "frozenset": "frozenset",
-            "falsy": "int"}
+            "falsy": "int", "nested": "nested", "lookalike": "mixed"}
 
 
 def c15_cases(rng, k):
